@@ -1227,14 +1227,71 @@ func (c *Ctx) isBodyLocalValue(e ast.Expr) bool {
 	if !ok || v.IsField() {
 		return false
 	}
-	if _, isPtr := v.Type().Underlying().(*types.Pointer); isPtr {
-		return false
-	}
 	if c.fr.fi.Decl == nil || c.fr.fi.Decl.Body == nil {
 		return false
 	}
 	b := c.fr.fi.Decl.Body
-	return v.Pos() > b.Pos() && v.Pos() < b.End()
+	if !(v.Pos() > b.Pos() && v.Pos() < b.End()) {
+		return false
+	}
+	if _, isPtr := v.Type().Underlying().(*types.Pointer); isPtr {
+		// a pointer declared in the body owns its target when it is assigned exactly once, from new(T) or &T{...}
+		n, fresh := 0, false
+		ast.Inspect(b, func(nd ast.Node) bool {
+			switch st := nd.(type) {
+			case *ast.AssignStmt:
+				for i, l := range st.Lhs {
+					lid, ok := l.(*ast.Ident)
+					if !ok {
+						continue
+					}
+					o := c.fr.info.Defs[lid]
+					if o == nil {
+						o = c.fr.info.Uses[lid]
+					}
+					if o != types.Object(v) {
+						continue
+					}
+					n++
+					if len(st.Rhs) == len(st.Lhs) {
+						fresh = isFreshAllocExpr(st.Rhs[i])
+					}
+				}
+			case *ast.ValueSpec:
+				for i, name := range st.Names {
+					if c.fr.info.Defs[name] == types.Object(v) {
+						n++
+						if i < len(st.Values) {
+							fresh = isFreshAllocExpr(st.Values[i])
+						}
+					}
+				}
+			case *ast.UnaryExpr:
+				// &p taken: somebody else may redirect it
+				if st.Op == token.AND {
+					if id2, ok := unparen(st.X).(*ast.Ident); ok && c.fr.info.Uses[id2] == types.Object(v) {
+						n += 2
+					}
+				}
+			}
+			return true
+		})
+		return n == 1 && fresh
+	}
+	return true
+}
+
+// isFreshAllocExpr: new(T) or &T{...}
+func isFreshAllocExpr(e ast.Expr) bool {
+	switch t := unparen(e).(type) {
+	case *ast.CallExpr:
+		id, ok := t.Fun.(*ast.Ident)
+		return ok && id.Name == "new" && len(t.Args) == 1
+	case *ast.UnaryExpr:
+		_, ok := unparen(t.X).(*ast.CompositeLit)
+		return t.Op == token.AND && ok
+	}
+	return false
 }
 
 var _ = token.NoPos
